@@ -806,7 +806,11 @@ def replay(path):
         q = b'"' + s + b'"'
         js = [judge_amount(s, rs[0]), judge_json(s, rs[1], False), judge_json(q, rs[2], False),
               judge_pct(s, rs[3], True), judge_json(s, rs[4], True), judge_json(q, rs[5], True)]
-        for nm, rr, j in zip(NAMES, rs, js):
-            print("  %-34s %-28r %s" % (nm, rr, "property holds" if j is None else "PROPERTY FAILS: %s%s" % (j[0], " [finding %s]" % j[1] if j[1] else "")))
+        raws = [None, s, q, None, s, q]
+        for nm, rr, j, raw in zip(NAMES, rs, js, raws):
+            verdict = "property holds" if j is None else "PROPERTY FAILS: %s%s" % (j[0], " [finding %s]" % j[1] if j[1] else "")
+            if raw is not None and json_value(raw) is None:
+                verdict = "(token is not one JSON value: judged by the correspondence only)"
+            print("  %-34s %-28r %s" % (nm, rr, verdict))
         print("  in the published amount / percentage pattern:", member(s), bool(PCT_RE.match(s)), " the code's pattern says:", gi[6][0], gi[7][0])
     return 0
